@@ -235,6 +235,16 @@ func TestC16(t *testing.T) {
 			}
 		}
 		stmts, tags := gen.Stmts(t, cfg)
+		renamed := false
+		if gen.Uniform(0, 4).Draw(t, "spelled-like-emitted-names") == 0 {
+			// identifiers spelled like the names the Batch script itself uses (one with an upper-case letter, another one with
+			// the exact emitted spelling of some identifier): labels and variables must stay apart
+			if rs, desc := renameLikeEmitted(t, stmts); desc != "" {
+				stmts = rs
+				renamed = true
+				r.Class("identifiers-spelled-like-emitted-names")
+			}
+		}
 		src := ts.StmtsString(stmts)
 		c := formCase{Kind: "wellformed", Property: "C16", Files: map[string]string{"main.tsh": src}, Main: "main.tsh"}
 		r.Eval()
@@ -253,6 +263,10 @@ func TestC16(t *testing.T) {
 			r.NonTrivial(src, map[string]any{"source": src})
 		}
 		if be, rule, msg := checkWellFormed(c); be != "" {
+			if renamed && rule == "rejected" {
+				r.Class("renamed-program-rejected") // a renaming may be refused (C10); an accepted program must be well-formed
+				return
+			}
 			r.FailCase(t, rep.Sig{"backend": be, "rule": rule}, msg+"\n"+src, c)
 		}
 	})
